@@ -131,3 +131,6 @@ def oppair_jobs(tier, cores):
 
 for _p in ("C01", "C02", "C03", "C04", "C05", "C06", "C09", "C12"):
     PLANS[_p]["jobs"] = multi(PLANS[_p]["jobs"], oppair_jobs)
+
+# C13: the deterministic schedule enumerations also detect calls that never return
+PLANS["C13"]["jobs"] = multi(PLANS["C13"]["jobs"], pair_jobs, oppair_jobs)
